@@ -172,6 +172,35 @@ def close_during_connect():
     return None if all(isinstance(v, dict) for v in r.values()) and r else {'scenario': 'close during connect', 'observed': r}
 
 
+def close_during_retry_wait():
+    r = run_script('''
+    async def main():
+        out = {}
+        for cls in (IO.EByteNmea2000Gateway, IO.YachtDevicesNmea2000Gateway):
+            c = cls('h', 1)
+            dials = []
+            async def fake_impl(c=c, dials=dials):
+                dials.append(c.state.name)
+                if len(dials) == 1: raise ConnectionRefusedError('refused')
+                c.reader = FakeReader([], eof=False); c.writer = FakeWriter([])
+            c._connect_impl = fake_impl
+            t = asyncio.create_task(c.connect())
+            await asyncio.sleep(0.1)          # the first attempt has failed, connect() sleeps in the back-off (0.5 s or more)
+            await c.close()
+            await asyncio.sleep(2.5)
+            out[cls.__name__] = {'state': c.state.name, 'state_at_each_dial': dials, 'connect_task_done': t.done()}
+            t.cancel()
+            if c._receive_task: c._receive_task.cancel()
+        print('RESULT ' + json.dumps(out))
+    asyncio.run(main())
+    ''', timeout=40)
+    for k, v in r.items():
+        if isinstance(v, dict) and ('CLOSED' in v.get('state_at_each_dial', []) or v.get('state') != 'CLOSED' or not v.get('connect_task_done')):
+            return {'scenario': 'the gateway refuses the first attempt; close() is called while connect() waits before the retry', 'client': k, 'observed': v,
+                    'expected': 'no transport connection is opened once the client is CLOSED; the connect task ends'}
+    return None if all(isinstance(v, dict) for v in r.values()) and r else {'scenario': 'close during retry wait', 'observed': r}
+
+
 def fault_while_closing():
     r = run_script('''
     class GatedReader:
@@ -308,6 +337,48 @@ def serial_split_marker():
     if r.get('bad'):
         return {'scenario': 'marker-free noise then three packets; one read boundary near / inside the AA 55 marker', 'observed': r['bad'], 'expected': '[11, 12, 13] for every split'}
     return None if 'bad' in r else {'scenario': 'split marker', 'observed': r}
+
+
+def serial_packet_end_at_read_boundary():
+    r = run_script('''
+    async def main():
+        enc = IO.NMEA2000Encoder()
+        def with_checksum(src, want):
+            pk = bytearray(enc.encode_usb(heading(src))[0])
+            for sid in range(0, 250):
+                pk[10] = sid                       # the SID byte of PGN 127250: any value decodes
+                pk[19] = sum(pk[2:19]) & 0xFF
+                if pk[19] == want and b'\\xaa\\x55' not in bytes(pk[2:]): return bytes(pk)
+            return None
+        results = {}
+        for last in (0xAA, 0x55, 0x10):
+            a = with_checksum(11, last)
+            if a is None: continue
+            b, c3 = enc.encode_usb(heading(12))[0], enc.encode_usb(heading(13))[0]
+            for first in (0x55, 0xAA, 0x11):
+                for m in (1, 5, 17):
+                    noise = bytes([first]) + bytes([0x11]) * (m - 1)
+                    for reads in ([a, noise + b + c3], [a, noise, b + c3], [a + noise[:1], noise[1:] + b + c3]):
+                        c = IO.WaveShareNmea2000Gateway('/dev/null')
+                        got = []
+                        async def rc(mm, got=got): got.append(mm.source)
+                        c.set_receive_callback(rc)
+                        c.reader = FakeReader([x for x in reads if x], eof=False); c._buffer = bytearray(); c._state = State.CONNECTED
+                        async def pump(c=c):
+                            while True: await c._receive_impl()
+                        t = asyncio.create_task(pump())
+                        for _ in range(200):
+                            await asyncio.sleep(0.005)
+                            if len(got) >= 3: break
+                        await asyncio.sleep(0.01); t.cancel(); await c.close()
+                        if got != [11, 12, 13]: results[f'last_byte={last:02x},noise_starts={first:02x},noise_len={m},reads={[len(x) for x in reads]}'] = got
+        print('RESULT ' + json.dumps({'bad': results}))
+    asyncio.run(main())
+    ''', timeout=120)
+    if r.get('bad'):
+        return {'scenario': 'a valid packet ends exactly at a read boundary (its last byte is AA, 55 or 10); marker-free noise of 1 / 5 / 17 bytes follows, then two valid packets',
+                'observed': r['bad'], 'expected': '[11, 12, 13]: noise without a start marker loses no packet'}
+    return None if 'bad' in r else {'scenario': 'packet end at a read boundary', 'observed': r}
 
 
 def status_trace():
@@ -514,6 +585,42 @@ def reconnect_after_reset():
     return None
 
 
+def fault_before_connected_reported():
+    r = run_script('''
+    async def main():
+        enc = IO.NMEA2000Encoder()
+        out = {}
+        for cls in (IO.EByteNmea2000Gateway, IO.YachtDevicesNmea2000Gateway):
+            c = cls('h', 1)
+            trace = []
+            async def scb(s, trace=trace):
+                trace.append(s.name)
+                if s == State.CONNECTED: await asyncio.sleep(0.2)          # a slow application callback
+            c.set_status_callback(scb)
+            dials = []
+            async def fake_connect_impl(c=c, dials=dials):
+                dials.append(1)
+                # the first session is accepted and dropped at once by the gateway; the second one stays up
+                c.reader = FakeReader([], eof=(len(dials) == 1)); c.writer = FakeWriter([])
+            c._connect_impl = fake_connect_impl
+            t = asyncio.create_task(c.connect())
+            for _ in range(100):
+                await asyncio.sleep(0.05)
+                if len(dials) >= 2 and c.state == State.CONNECTED: break
+            await asyncio.sleep(0.5)
+            out[cls.__name__] = {'state_after_5s': c.state.name, 'dials': len(dials), 'trace': trace,
+                                 'receive_loop_running': bool(c._receive_task and not c._receive_task.done())}
+            t.cancel(); await c.close()
+        print('RESULT ' + json.dumps(out))
+    asyncio.run(main())
+    ''', timeout=60)
+    for k, v in r.items():
+        if isinstance(v, dict) and (v.get('state_after_5s') != 'CONNECTED' or v.get('dials', 0) < 2 or not v.get('receive_loop_running')):
+            return {'scenario': 'the gateway accepts the first connection and drops it at once while the status callback for CONNECTED is still running (0.2 s); it accepts the next connection and keeps it',
+                    'client': k, 'observed': v, 'expected': 'DISCONNECTED is followed by a second connection and CONNECTED, with a receive loop running'}
+    return None if all(isinstance(v, dict) for v in r.values()) and r else {'scenario': 'fault before CONNECTED is reported', 'observed': r}
+
+
 def transport_opens_during_close():
     r = run_script('''
     async def main():
@@ -641,15 +748,47 @@ def read_fails_with_value_error():
     return None
 
 
+def callback_window():
+    r = run_script('''
+    async def main():
+        enc = IO.NMEA2000Encoder()
+        res = {}
+        for delay in (0.05, 0.15, 0.25):
+            c = IO.EByteNmea2000Gateway('h', 1)
+            got = []
+            async def rc(m, got=got):
+                got.append(m.source)
+            pk = b''.join(enc.encode_ebyte(heading(s))[0] for s in (21, 22, 23))
+            pk2 = b''.join(enc.encode_ebyte(heading(s))[0] for s in (24, 25))
+            c.reader = FakeReader([pk] + [None] * 40 + [pk2], eof=False); c._state = State.CONNECTED
+            async def pump(c=c):
+                while True: await c._receive_impl()
+            t = asyncio.create_task(pump())
+            await asyncio.sleep(delay)
+            c.set_receive_callback(rc)
+            await asyncio.sleep(1.0); t.cancel(); await c.close()
+            res[str(delay)] = got
+        print('RESULT ' + json.dumps({'delivered': res}))
+    asyncio.run(main())
+    ''', timeout=40)
+    d = r.get('delivered')
+    bad = d is None or any(x != sorted(set(x)) or [y for y in x if y in (24, 25)] != [24, 25] for x in d.values())
+    if bad:
+        return {'scenario': 'three packets arrive while no receive callback is registered, the callback is registered 50 / 150 / 250 ms later, two more packets follow',
+                'observed': r, 'expected': 'whatever is delivered is delivered once and in wire order (21 < 22 < 23 < 24 < 25); 24 and 25 are delivered'}
+    return None
+
+
 BATTERY = {
     'C19': {'concurrent-send': [concurrent_send], 'unsendable': [unsendable], 'stale-writer': [stale_writer], 'send-after-fault': [send_after_fault], None: [concurrent_send, unsendable, stale_writer, send_after_fault]},
-    'C14': {'close-during-connect': [close_during_connect], 'close-sets-closed-late': [transport_opens_during_close], 'status-trace': [status_trace], 'status-callback-raises': [status_trace],
+    'C14': {'close-during-connect': [close_during_connect, close_during_retry_wait], 'close-sets-closed-late': [transport_opens_during_close], 'status-trace': [status_trace], 'status-callback-raises': [status_trace],
             'close-during-_receive_loop': [fault_while_closing], 'close-during-send': [fault_while_closing],
-            None: [close_during_connect, fault_while_closing, status_trace, transport_opens_during_close]},
-    'C13': {'eof': [eof_no_stall], 'reconnect-after-reset': [reconnect_after_reset], 'reconnect-mid-packet': [reconnect_mid_packet], None: [eof_no_stall, close_during_connect, reconnect_after_reset, reconnect_mid_packet, read_fails_with_value_error]},
-    'C12': {'reconnect-mid-packet': [reconnect_mid_packet], None: [delivery_order, delivery_all_clients, serial_split_marker, reconnect_mid_packet]},
+            None: [close_during_connect, fault_while_closing, status_trace, transport_opens_during_close, close_during_retry_wait]},
+    'C13': {'eof': [eof_no_stall], 'reconnect-after-reset': [reconnect_after_reset], 'reconnect-mid-packet': [reconnect_mid_packet], 'fault-before-connected-reported': [fault_before_connected_reported],
+            None: [eof_no_stall, close_during_connect, reconnect_after_reset, reconnect_mid_packet, read_fails_with_value_error, fault_before_connected_reported]},
+    'C12': {'reconnect-mid-packet': [reconnect_mid_packet], 'callback-window': [callback_window], None: [delivery_order, delivery_all_clients, serial_split_marker, reconnect_mid_packet, callback_window]},
     'C06': {None: [delivery_all_clients, serial_split_marker]},
-    'C20': {'bound': [serial_buffer], 'split-marker': [serial_split_marker], None: [serial_buffer, serial_split_marker, delivery_all_clients]},
+    'C20': {'bound': [serial_buffer], 'split-marker': [serial_split_marker, serial_packet_end_at_read_boundary], None: [serial_buffer, serial_split_marker, serial_packet_end_at_read_boundary, delivery_all_clients]},
 }
 
 
